@@ -139,7 +139,9 @@ class _WaveID3(ID3):
         chunk.resize(len(data))
         chunk.write(data)
 
-    def delete(self, filething):
+    @convert_error(IOError, error)
+    @loadfile(writable=True)
+    def delete(self, filething=None):
         """Completely removes the ID3 chunk from the RIFF/WAVE file"""
 
         delete(filething)
